@@ -4,6 +4,7 @@ import Nstd.Hash.LemmasString
 import Nstd.Hash.LemmasConst
 import Nstd.Hash.LemmasStable
 import Nstd.Generated.HashConst
+import Nstd.Generated.HashFn
 /-
   Property C02: HashMap / HashSet / PoolMap behave as insertion-ordered unique-key tables.
 
@@ -299,41 +300,77 @@ theorem ptr_self_arguments (kind : Kind) (h : Nat → Nat) (pt : PTable) (t : Ta
     (∃ pt', PTable.removeSelf h pt = some pt' ∧ Rel pt' (Table.removeAll h t t.items t.order) ∧ pt'.self = pt.self) :=
   ⟨fun hk => (hr.appendSelf hi kind hk).1, hr.swapSelf hi, hr.removeSelf hi⟩
 
-/-! ### `hash(const String&)` -/
+/-! ### the hash functions, as translated from the current sources (`Nstd/Generated/HashFn.lean`) -/
 
-/-- the three indices read by `hash(const String&)` lie within the `len + 1` bytes (text + terminator) of the string -/
-theorem hash_string_in_bounds (len : Nat) : ∀ i ∈ hashStringReads len, i < len + 1 := by
+open Nstd.Generated.HashFn in
+/-- `hash(const String&)` of the current String.hpp: every index of an `s[..]` expression lies within the `len + 1` bytes
+    (text + terminator) the converted pointer designates, for every length a `usize` can hold -/
+theorem hash_string_in_bounds (len : Nat) (hl : len < M) : ∀ i ∈ hashStringReads len, i < len + 1 := by
   intro i hi
-  simp only [hashStringReads, List.mem_cons, List.not_mem_nil, or_false] at hi
-  rcases hi with e | e | e
-  · omega
-  · have := Nat.div_le_self len 2; omega
-  · split at e <;> omega
+  simp only [M] at hl
+  simp only [hashStringReads, List.mem_cons, List.not_mem_nil, or_false, udiv, usub, uadd, umul, umod,
+    Nat.reduceMod, Nat.reduceDiv, Nat.reduceAdd, Nat.reduceSub, Nat.reduceMul] at hi
+  by_cases h0 : len = 0
+  · subst h0
+    simp at hi
+    omega
+  · simp only [ne_eq, h0, not_false_eq_true, if_true] at hi
+    omega
 
-/-- hence the modelled hash function never faults on a string buffer of `len + 1` bytes -/
-theorem hash_string_total (s : List Nat) (len : Nat) (hs : s.length = len + 1) : (hashString s len).isSome = true := by
-  have h0 : 0 < s.length := by omega
-  have h1 : len / 2 < s.length := by have := Nat.div_le_self len 2; omega
-  have h2 : len - (if len ≠ 0 then 1 else 0) < s.length := by split <;> omega
-  simp only [hashString, List.getElem?_eq_getElem h0, List.getElem?_eq_getElem h1, List.getElem?_eq_getElem h2]
-  rfl
+open Nstd.Generated.HashFn in
+/-- hence the translated hash function never faults on a string buffer of `len + 1` bytes -/
+theorem hash_string_total (s : List Nat) (len : Nat) (hl : len < M) (hs : s.length = len + 1) :
+    (hashWith hashStringReads hashStringOf s len).isSome = true := by
+  unfold hashWith
+  have := readAll_isSome s (hashStringReads len) (fun i hi => by rw [hs]; exact hash_string_in_bounds len hl i hi)
+  cases hr : readAll s (hashStringReads len) with
+  | none => rw [hr] at this; cases this
+  | some cs => rfl
 
+open Nstd.Generated.HashFn in
 /-- `hash_string_in_bounds` over the String VIEW actually read: whatever memory the string points into (its own block, a
     literal, the middle of a larger text whose neighbouring bytes are arbitrary), as long as the byte after the text is
     readable (the contract of `attach`), the pointer obtained by `const char* s = str;` designates the string's OWN text
-    followed by the NUL the conversion guarantees, and the three bytes the hash reads are bytes `0 … len` of that -/
-theorem hash_string_reads_own_text (v : StrView) (hv : v.off + v.len < v.buf.length) :
+    followed by the NUL the conversion guarantees, and the bytes the hash reads are bytes `0 … len` of that -/
+theorem hash_string_reads_own_text (v : StrView) (hl : v.len < M) (hv : v.off + v.len < v.buf.length) :
     ∃ s, v.conv = some s ∧ ∀ i ∈ hashStringReads v.len, i ≤ v.len ∧ s[i]? = (v.text ++ [0])[i]? := by
   obtain ⟨s, hs, hrd⟩ := v.conv_spec hv
-  exact ⟨s, hs, fun i hi => ⟨hashReads_le v.len i hi, hrd i (hashReads_le v.len i hi)⟩⟩
+  have hb : ∀ i ∈ hashStringReads v.len, i ≤ v.len := fun i hi => Nat.le_of_lt_succ (hash_string_in_bounds v.len hl i hi)
+  exact ⟨s, hs, fun i hi => ⟨hb i hi, hrd i (hb i hi)⟩⟩
 
-/-- equal strings (`operator==`: same length, same bytes) have equal hash codes, independent of where the two strings
-    point to and of what follows them: owned, literal, shared, attached view, empty view inside a text -/
-theorem hash_respects_equality (v w : StrView) (hv : v.off + v.len < v.buf.length) (hw : w.off + w.len < w.buf.length)
-    (he : v.text = w.text) : hashView v = hashView w ∧ (hashView v).isSome = true := by
-  rw [hashView_eq v hv, hashView_eq w hw, he]
+open Nstd.Generated.HashFn in
+/-- the consistency `refines` assumes of the key type, for String keys: equal strings (`operator==`: same length, same
+    bytes) have equal (and defined) hash codes, independent of where the two strings point to and of what follows them:
+    owned, literal, shared, attached unterminated view, empty view inside a text -/
+theorem hash_respects_equality (v w : StrView) (hl : v.len < M) (hv : v.off + v.len < v.buf.length)
+    (hw : w.off + w.len < w.buf.length) (he : v.text = w.text) :
+    hashViewWith hashStringReads hashStringOf v = hashViewWith hashStringReads hashStringOf w ∧
+    (hashViewWith hashStringReads hashStringOf v).isSome = true := by
+  have hlen : v.len = w.len := by
+    rw [← v.text_length (Nat.le_of_lt hv), ← w.text_length (Nat.le_of_lt hw), he]
+  have hbv : ∀ i ∈ hashStringReads v.len, i ≤ v.len := fun i hi => Nat.le_of_lt_succ (hash_string_in_bounds v.len hl i hi)
+  have hbw : ∀ i ∈ hashStringReads w.len, i ≤ w.len := by rw [← hlen]; exact hbv
+  rw [hashViewWith_eq _ _ v hbv hv, hashViewWith_eq _ _ w hbw hw, he]
   refine ⟨rfl, ?_⟩
-  exact hash_string_total _ _ (by simp)
+  exact hash_string_total _ _ (by rw [w.text_length (Nat.le_of_lt hw), ← hlen]; exact hl) (by simp)
+
+open Nstd.Generated.HashFn in
+/-- the consistency `refines` assumes of the key type, for the integral and pointer keys of Base.hpp: every overload that
+    the preprocessor leaves active is a function of the bit pattern of its argument alone (the translator refuses a body
+    that mentions anything but the parameter under a `(usize)` cast, `sizeof` and literals), so equal keys have equal
+    codes, and every code fits `usize` -/
+theorem hash_int_respects_equality :
+    ∀ o ∈ overloads, ∀ x y : Nat, x = y → o.2.2.2 x = o.2.2.2 y ∧ o.2.2.2 x < M := by
+  intro o ho x y hxy
+  subst hxy
+  refine ⟨rfl, ?_⟩
+  simp only [overloads, List.mem_cons, List.not_mem_nil, or_false] at ho
+  rcases ho with e | e | e | e | e | e | e | e | e <;> subst e <;>
+    simp only [hash_int8, hash_uint8, hash_int16, hash_uint16, hash_int32, hash_uint32, hash_int64, hash_uint64, hash_ptr,
+      castUsize, ushr, M] <;>
+    first
+      | exact Nat.mod_lt _ (by decide)
+      | exact Nat.lt_of_le_of_lt (Nat.shiftRight_le _ _) (Nat.mod_lt _ (by decide))
 
 /-! ### items never move while they live (mechanism level of property C05) -/
 
@@ -666,7 +703,9 @@ example :
     let v : StrView := ⟨[0], 0, 0⟩
     let w : StrView := ⟨[97, 98, 99], 1, 0⟩
     v.off + v.len < v.buf.length ∧ w.off + w.len < w.buf.length ∧ v.text = w.text ∧
-      hashView v = some 0 ∧ hashView w = some 0 ∧ w.buf[w.off]? = some 98 := by
+      hashViewWith Nstd.Generated.HashFn.hashStringReads Nstd.Generated.HashFn.hashStringOf v = some 0 ∧
+      hashViewWith Nstd.Generated.HashFn.hashStringReads Nstd.Generated.HashFn.hashStringOf w = some 0 ∧
+      w.buf[w.off]? = some 98 := by
   decide
 
 /-- the hypotheses of `items_stable_step` are met, and both branches occur: in a one-bucket HashMap holding the keys 5 (item 0)
@@ -682,6 +721,10 @@ example :
   · simp only [Op.releases, true_and]; decide
   · simp only [Op.releases, true_and]; decide
 
-example : hashStringReads 0 = [0, 0, 0] ∧ hashStringReads 5 = [0, 2, 4] := by decide
+example : Nstd.Generated.HashFn.hashStringReads 0 = [0, 0, 0] ∧ Nstd.Generated.HashFn.hashStringReads 5 = [0, 2, 4] := by decide
+
+/-- sign extension of a negative `int8` key, the pointer shift -/
+example : Nstd.Generated.HashFn.hash_int8 0xff = 2 ^ 64 - 1 ∧ Nstd.Generated.HashFn.hash_uint8 0xff = 255 ∧
+    Nstd.Generated.HashFn.hash_ptr 0x1000 = 0x200 := by decide
 
 end Nstd.Hash
